@@ -167,11 +167,13 @@ WireFtpSymlink == {
 (* --continue with a partial local file: the server does not resume *)
 WireFtpContinue == {
   <<"fc_ok", "none", "none">>,
-  Fx("continue_refused", <<"fc_rest_502", "f_writer_continue", "OSError">>, <<"fc_rest_502", "f_writer_continue", "ProtocolError">>),
-  Fx("continue_refused", <<"fc_rest_multiline_501", "f_writer_continue", "OSError">>, <<"fc_rest_multiline_501", "f_writer_continue", "ProtocolError">>) }
+  \* REST refused: the whole file comes and the local copy is written anew
+  Fx("continue_refused", <<"fc_rest_502", "f_writer_continue", "OSError">>, <<"fc_rest_502", "none", "none">>),
+  Fx("continue_refused", <<"fc_rest_multiline_501", "f_writer_continue", "OSError">>, <<"fc_rest_multiline_501", "none", "none">>) }
 WireHttpContinue == {
   <<"hc_206", "none", "none">>,
-  Fx("continue_refused", <<"hc_200_range_ignored", "h_writer_continue", "OSError">>, <<"hc_200_range_ignored", "h_writer_continue", "ProtocolError">>),
+  \* Range ignored (200 with the whole document): the local copy is written anew, as Wget does
+  Fx("continue_refused", <<"hc_200_range_ignored", "h_writer_continue", "OSError">>, <<"hc_200_range_ignored", "none", "none">>),
   Fx("continue_refused", <<"hc_416", "h_writer_continue", "OSError">>, <<"hc_416", "h_writer_continue", "ProtocolError">>) }
 
 (* --warc-file: the WARC recorder listens to every step of the conversation; nothing it does may add an escape *)
